@@ -877,7 +877,7 @@ def crash_programs_c18(verif_seed, tier):
             out.append(pr)
     if tier == "thorough":
         for a in sorted(ALPHABET3):
-            for b in names:
+            for b in sorted(ALPHABET3):
                 pr = prog_for((a, b))
                 if pr:
                     out.append(pr)
